@@ -202,6 +202,8 @@ func checkC05(p *Prog, r *Report) {
 		r.Pass("R3", "inbound-tree", "", fmt.Sprintf("no reachable explicit panic or unchecked assertion (%d exemptions backed by table rules)", len(w.Exempt)))
 	}
 	c05KeepNodeManagement(p, w, r)
+	// a decoder that rejects what it cannot interpret drops the whole datagram — the peer is not answered any more
+	customDecoderRejectsOnlySyntax(p, r, "R8")
 	for _, e := range uniqStrings(w.Exempt) {
 		r.Info("exempt: %s", e)
 	}
